@@ -74,6 +74,7 @@ BH& add_td(Client& c, TD&& a, const TA& m, uint64_t origin = 0) { BH h; h.td.res
 template <class A> bool result_model(const A& r, TA& got, const std::string& site) {
 	api_end(); std::string why;
 	if (!read_back(r, got, &why)) { violation(g_profile + ".result-readable", site, why); return false; }
+	observe(got.hash());
 	return true;
 }
 
